@@ -43,6 +43,16 @@ type hintErr struct{ Tok string }
 func (e hintErr) Error() string             { return "rate limited " + e.Tok }
 func (e hintErr) RetryAfter() time.Duration { return 0 }
 
+// listErr: an error type that is not comparable (a slice), like
+// go/scanner.ErrorList. The token is its first element.
+type listErr []string
+
+func (e listErr) Error() string { return "errors: " + strings.Join(e, "; ") }
+func (e listErr) Is(target error) bool {
+	t, ok := target.(listErr)
+	return ok && len(t) > 0 && len(e) > 0 && t[0] == e[0]
+}
+
 // nilPtrErr: the "typednil" flavour. The error a callback returns is a nil
 // *nilPtrErr in a non-nil error interface - the classic gotcha; it is an
 // error (err != nil), and the framework must treat it as one.
@@ -157,6 +167,9 @@ func (r *registry) mkErr(flavor, tok string) error {
 		re = regErr{base: e, returned: e}
 	case "hint":
 		e := hintErr{Tok: tok}
+		re = regErr{base: e, returned: e}
+	case "list":
+		e := listErr{tok, "and more"}
 		re = regErr{base: e, returned: e}
 	case "sentinel", "errres":
 		e := &simErr{Tok: tok}
@@ -300,7 +313,7 @@ func (r *registry) describeErr(err error) string {
 	}
 	r.mu.Unlock()
 	for i, re := range errs {
-		if re.returned == err {
+		if reflect.TypeOf(err).Comparable() && reflect.TypeOf(re.returned).Comparable() && re.returned == err {
 			return toks[i]
 		}
 	}
@@ -712,6 +725,9 @@ func (h *harness) exec(ctx context.Context, n *NodeSpec, arg any, anyStyle bool)
 		if st.visits < 8 { // (a shrink candidate may nest without end; the model stops at the same point)
 			simrt.Locked(func() { st.open = false }) // a nested run of this node opens a visit of its own
 			store := h.store
+			if h.sc.NilStore {
+				store = nil // (the model's tag for the run's own store)
+			}
 			if o.NestedStore {
 				store = flyt.NewSharedStore()
 			}
@@ -935,6 +951,15 @@ type ovrFbNode struct {
 	retrym
 }
 type plainNode struct{ cb }
+
+// decoNode: a decorator. It has no retry settings of its own (so: one
+// attempt); Unwrap hands out a node that has a budget of 3 - which is that
+// node's business.
+type decoNode struct{ cb }
+
+func (decoNode) Unwrap() flyt.Node {
+	return flyt.NewBaseNode(flyt.WithMaxRetries(3), flyt.WithWait(10*time.Millisecond))
+}
 type fbNode struct{ fbcb }
 type retryNode struct {
 	cb
@@ -1471,6 +1496,8 @@ func (h *harness) build() {
 			h.nodes[i] = []flyt.Node{new(zst0), new(zst1), new(zst2), new(zst3)}[k]
 		case "plain":
 			h.nodes[i] = &plainNode{c}
+		case "deco":
+			h.nodes[i] = &decoNode{c}
 		case "fb":
 			h.nodes[i] = &fbNode{fbcb{h, n}}
 		case "retry":
@@ -1724,6 +1751,10 @@ func (h *harness) runMain() {
 		var action flyt.Action
 		var err error
 		flags := ""
+		runStore := h.store
+		if sc.NilStore {
+			runStore = nil
+		}
 		func() {
 			defer func() {
 				// only a panic the scenario scripted is taken as the run's outcome
@@ -1735,10 +1766,10 @@ func (h *harness) runMain() {
 				}
 			}()
 			if sc.Via == "flowrun" {
-				err = flowOf(h.nodes[sc.Root]).Run(h.ctx, h.store)
+				err = flowOf(h.nodes[sc.Root]).Run(h.ctx, runStore)
 				action = "(flow.Run)"
 			} else {
-				action, err = flyt.Run(h.ctx, h.nodes[sc.Root], h.store)
+				action, err = flyt.Run(h.ctx, h.nodes[sc.Root], runStore)
 			}
 		}()
 		if cerr := h.ctx.Err(); flags == "" && cerr != nil && err != nil && errors.Is(err, cerr) {
